@@ -33,7 +33,43 @@ func strArg(v value) string {
 	return s
 }
 
-func (ex *exec) uuidTerm(t *Term) *Term { return ex.tt.UFBool("isuuid", t) }
+// uuidTerm is "t is a valid UUID string": decided natively for constants, otherwise the uninterpreted predicate
+// isuuid with the axiom isuuid(t) => len(t) = 36 asserted once per term.
+func (ex *exec) uuidTerm(t *Term) *Term {
+	if t.isConst() {
+		return ex.tt.Bool(uuidLower.MatchString(t.cv.(string)))
+	}
+	u := ex.tt.UFBool("isuuid", t)
+	if ex.uuidAxioms == nil {
+		ex.uuidAxioms = map[int]bool{}
+	}
+	if !ex.uuidAxioms[t.id] {
+		ex.uuidAxioms[t.id] = true
+		ex.uuidTerms = append(ex.uuidTerms, u)
+		ex.assertPC(ex.tt.Or(ex.tt.Not(u), ex.tt.Eq(ex.tt.StrLen(t), ex.tt.BV(SBV64, 36))))
+	}
+	return u
+}
+
+var uuidLower = regexp.MustCompile(`^[0-9a-f]{8}-[0-9a-f]{4}-[0-9a-f]{4}-[0-9a-f]{4}-[0-9a-f]{12}$`)
+
+// replayString maps a model string to the string used in native replay: strings the path constrains to be
+// valid UUIDs are replaced, consistently, by real UUIDs.
+func (ex *exec) replayString(v *Term, modelVal string, model map[string]interface{}) string {
+	isU, _ := model[refSMT(ex.tt.UFBool("isuuid", v))].(bool)
+	if !isU || !ex.uuidAxioms[v.id] || uuidLower.MatchString(modelVal) {
+		return modelVal
+	}
+	if ex.uuidSubst == nil {
+		ex.uuidSubst = map[string]string{}
+	}
+	if r, ok := ex.uuidSubst[modelVal]; ok {
+		return r
+	}
+	r := fmt.Sprintf("aaaaaaaa-0000-4000-8000-%012d", len(ex.uuidSubst)+1)
+	ex.uuidSubst[modelVal] = r
+	return r
+}
 
 var uuidRe = regexp.MustCompile(`^[a-fA-F0-9]{8}-[a-fA-F0-9]{4}-[a-fA-F0-9]{4}-[a-fA-F0-9]{4}-[a-fA-F0-9]{12}$`)
 
@@ -41,6 +77,9 @@ var uuidRe = regexp.MustCompile(`^[a-fA-F0-9]{8}-[a-fA-F0-9]{4}-[a-fA-F0-9]{4}-[
 func (ex *exec) fmtNative(v value) interface{} {
 	switch x := v.(type) {
 	case iface:
+		if x.t == ex.lazyT && x.t != nil {
+			return "«json»"
+		}
 		if x.t == nil {
 			return nil
 		}
@@ -241,8 +280,17 @@ func init() {
 	reg(rtPkg+".UUID", func(ex *exec, fr *frame, fn *ssa.Function, a []value) value {
 		v := ex.nondet("uuid", SStr, types.String).(sym)
 		ex.assertPC(ex.uuidTerm(v.t))
-		ex.assertPC(ex.tt.Eq(ex.tt.StrLen(v.t), ex.tt.BV(SBV64, 36)))
 		return v
+	})
+	reg(rtPkg+".LazyJSON", func(ex *exec, fr *frame, fn *ssa.Function, a []value) value {
+		depth, width := int(asInt64(a[0])), int(asInt64(a[1]))
+		var menu []string
+		if k := strArg(a[2]); k != "" {
+			menu = strings.Split(k, ",")
+		}
+		n := &jnode{kind: jLazy, lazy: &lazyState{depth: depth, width: width, keyMenu: menu}}
+		ex.nondets = append(ex.nondets, nondetEntry{kind: "json", node: n})
+		return &jsonBlob{node: n}
 	})
 	reg(rtPkg+".Choose", func(ex *exec, fr *frame, fn *ssa.Function, a []value) value {
 		return ex.choose(int(asInt64(a[0])))
@@ -524,7 +572,7 @@ func init() {
 		case string:
 			return re.MatchString(s)
 		case sym:
-			if strings.Contains(re.String(), "[a-fA-F0-9]{8}-") {
+			if strings.Contains(re.String(), "{8}-") && strings.Contains(re.String(), "{12}") {
 				return boolVal(ex.uuidTerm(s.t))
 			}
 		}
